@@ -1,4 +1,5 @@
 """C13 — stringutil.ContainsFold / SplitTrimmed agree with their reference definitions."""
+import shutil
 import threading
 from pathlib import Path
 
@@ -103,7 +104,10 @@ def run(ctx):
                 "is one TLC state emitted with the statement's verdict and replayed on ContainsFold / SplitTrimmed "
                 "(2-3 concretisations each, also compared with the statement's Go references); "
                 "T: seeded random calls recorded from the real functions, abstracted to orbit/member resp. token "
-                "sequences and re-judged by FoldTrace / SplitTrimTrace; plus a Go-only sweep against the references. "
+                "sequences and re-judged by FoldTrace / SplitTrimTrace; plus a Go-only sweep against the references; results as values: SplitValues.tla call sequences (piece counts around "
+                "small-buffer sizes) replayed with the results kept uncopied and re-read; S: free-running phase (plain and -race), "
+                "goroutines with needles of different fold orbits and goroutines splitting long inputs, every result compared with "
+                "the spec's prediction after the run (FoldConc.tla: a torn memo is refuted). "
                 "distinct_nontrivial = distinct inputs with non-empty operands")
     ctx.assumptions += ["operands are valid UTF-8 without U+FFFD (the statement's precondition)",
                         "runes of one model class (same orbit shape / same token) are treated alike by the code; "
@@ -183,7 +187,10 @@ def run(ctx):
 
     def lane_gen():
         ms, msub = (3, 3) if q else (4, 3)
-        fold_gen(lanes["gen"], "FamiliesQuick", ms, msub, w_big, 2 if q else 6)
+        try:
+            fold_gen(lanes["gen"], "FamiliesQuick", ms, msub, w_big, 2 if q else 6)
+        finally:
+            gen_done.set()
 
     def lane_small():
         dd = lanes["small"]
@@ -201,10 +208,72 @@ def run(ctx):
         for i, part in enumerate(split_file(dd / "split_vectors.ndjson", 2 if q else 4)):
             bg.go(replay, "replay-split", part, "split_%d" % i)
 
+    # ---- results as values for SplitTrimmed (SplitValues.tla) -------------------------------------------------
+    lanes["values"] = ctx.scratch / "lane_values"
+    shutil.copytree(d, lanes["values"])
+    lanes["conc"] = ctx.scratch / "lane_conc"
+    shutil.copytree(d, lanes["conc"])
+    gen_done = threading.Event()
+
+    def lane_values():
+        dd = lanes["values"]
+        consts = {"Cap": 2, "Counts": "{0, 1, 2, 3, 5}", "MaxCalls": 4 if q else 5}
+        write_cfg(dd / "SV_MC_run.cfg", "Spec", dict(consts, Impl='"fresh"'), invariants=["ResultsAreValues"])
+        tlc_locked(ctx, dd, "SplitValues", "SV_MC_run.cfg", workers=2, label="splitvalues-mc")
+        write_cfg(dd / "SV_pooled_run.cfg", "Spec", dict(consts, Impl='"pooled"'), invariants=["ResultsAreValues"])
+        r = ctx.tlc(dd, "SplitValues", "SV_pooled_run.cfg", workers=2, expect_ok=False, count=False,
+                    label="splitvalues-pooled-must-fail")
+        if r.violated != "ResultsAreValues":
+            raise CheckerError("SplitValues.tla does not refute the pooled-buffer design:\n" + "\n".join(r.out.splitlines()[-20:]))
+        write_cfg(dd / "SV_Gen_run.cfg", "Spec", dict(consts, Impl='"fresh"'), invariants=["Emit", "ResultsAreValues"])
+        tlc_locked(ctx, dd, "SplitValuesGen", "SV_Gen_run.cfg", workers=2, label="splitvalues-gen")
+        with _lock:
+            exhaustive.append(count_lines(dd / "splitvalues_vectors.ndjson"))
+        replay("replay-splitvalues", dd / "splitvalues_vectors.ndjson", "splitvalues")
+        out = ctx.scratch / "svrec.res"
+        ctx.vh(["c13", "record-splitvalues", dd / "splitvalues_trace.ndjson", out, 150 if q else 1500], timeout=1800)
+        s = ctx.collect(out)
+        validate_trace_locked(ctx, dd, "SplitValuesTrace", "SplitValuesTrace.cfg", "splitvalues_trace.ndjson",
+                              "retained SplitTrimmed results")
+        with _lock:
+            sums.append({"evaluations": s["evaluations"], "traced_events": s["events"]})
+
+    # ---- ContainsFold / SplitTrimmed as stateless actions of several goroutines (FoldConc.tla), plain and -race ----
+    def lane_conc():
+        dd = lanes["conc"]
+        consts = dict(base, Alphabets="{}", MaxS=0, MaxSub=0, Procs='{"p1", "p2"}', Pairs="<- ConcPairs", CallsPerProc=2)
+        write_cfg(dd / "Conc_MC_run.cfg", "CSpec", dict(consts, Memo='"none"'), invariants=["StatelessVerdict"])
+        tlc_locked(ctx, dd, "FoldConc", "Conc_MC_run.cfg", workers=2, label="foldconc-mc")
+        write_cfg(dd / "Conc_torn_run.cfg", "CSpec", dict(consts, Memo='"torn"'), invariants=["StatelessVerdict"])
+        r = ctx.tlc(dd, "FoldConc", "Conc_torn_run.cfg", workers=2, expect_ok=False, count=False,
+                    label="foldconc-torn-memo-must-fail")
+        if r.violated != "StatelessVerdict":
+            raise CheckerError("FoldConc.tla does not refute the torn memo:\n" + "\n".join(r.out.splitlines()[-20:]))
+        if not gen_done.wait(1700):
+            raise CheckerError("concurrent phase: the fold vectors never became ready")
+        vec = lanes["gen"] / "fold_FamiliesQuick.ndjson"
+        g, iters = (8, 60000) if q else (16, 600000)
+        for use_race in (False, True):
+            tag = "race" if use_race else "plain"
+            out = ctx.scratch / ("stress_%s.res" % tag)
+            td = ctx.scratch / ("conc_" + tag)
+            shutil.copytree(dd, td)
+            ctx.vh(["c13", "stress", td / "c13_conc_trace.ndjson", out, vec, g, iters if not use_race else iters // 4],
+                   race=use_race, timeout=1800, fatal_key="ContainsFold / SplitTrimmed under concurrency")
+            if not out.exists():
+                continue
+            s = ctx.collect(out)
+            validate_trace_locked(ctx, td, "FoldConcTrace", "FoldConcTrace.cfg", "c13_conc_trace.ndjson",
+                                  "concurrent ContainsFold / SplitTrimmed calls (%s build)" % tag)
+            with _lock:
+                sums.append({"evaluations": s["stress_calls"], "traced_events": s["events"], "stress_calls": s["stress_calls"]})
+
     lane_threads = Bg()
     lane_threads.go(lane_mc)
     lane_threads.go(lane_gen)
     lane_threads.go(lane_small)
+    lane_threads.go(lane_values)
+    lane_threads.go(lane_conc)
     try:
         lane_threads.join()
     finally:
@@ -220,6 +289,17 @@ def run(ctx):
     ctx.extra["inputs_enumerated_exhaustively"] = exhaustive_n
     ctx.extra["trace_events_validated"] = sum(s.get("traced_events", 0) for s in sums)
     ctx.extra["go_reference_sweep_calls"] = 2 * max(n_trace, n_sweep)
+    ctx.extra["stress_calls"] = sum(s.get("stress_calls", 0) for s in sums)
+    from vlib.core import REPO
+    golibs, other = ctx.race_reports()
+    if other and not golibs:
+        raise CheckerError("race detector reported a race in the harness only:\n" + other[0][:3000])
+    for rep in golibs:
+        frames = [ln.strip() for ln in rep.splitlines() if str(REPO) + "/" in ln and ".go:" in ln]
+        where = " | ".join(sorted(set("/".join(f.split(" ")[0].split("/")[-2:]) for f in frames))[:4])
+        ctx.mismatch("DATA RACE in concurrent ContainsFold / SplitTrimmed calls: " + where,
+                     "the Go race detector reported a data race with a golibs frame", rep[:6000])
+    ctx.extra["race_reports_with_golibs_frames"] = len(golibs)
 
 
 def replay(ctx, path):
